@@ -105,7 +105,15 @@ def run(ctx) -> Report:
 
     def world(gdim, tdim, degree, in_h1=True):
         coord_el = Obj("element", embedded_superdegree=degree, in_H1=in_h1)
-        dom = Obj("domain", geometric_dimension=gdim, topological_dimension=tdim, ufl_coordinate_element=lambda: coord_el)
+        ucell = Obj("cell", cellname={1: "interval", 2: "triangle", 3: "tetrahedron"}[tdim], topological_dimension=tdim, is_simplex=True)
+        dom = Obj(
+            "domain",
+            geometric_dimension=gdim,
+            topological_dimension=tdim,
+            ufl_coordinate_element=lambda: coord_el,
+            ufl_cell=lambda: ucell,
+            is_piecewise_linear_simplex_domain=lambda: degree <= 1 and in_h1,
+        )
         dom.attrs["__class__"] = None
         affine = degree <= 1 and in_h1 and gdim == tdim
 
